@@ -247,6 +247,39 @@ Theorem c13_slice_whole : forall rows : list row,
   rows_at rows (slice_indices (zlen rows) None None 1) = rows.
 Proof. exact slice_whole. Qed.
 
+(* Table.keep_rows as reached from Python, complete outcome: success = one mask entry per row,
+   no kept row refers to a dropped / missing row (references in any direction: unsorted tables,
+   the ragged parents column of individuals as well as the parent column of mutations), result =
+   the list model's rows and the old->new id map; anything else raises and leaves the table as
+   it was; a dangling reference is always refused *)
+Theorem c13_py_keep_rows_spec : forall d t keep,
+  WF d t ->
+  match py_keep_rows d t keep with
+  | (t', Ok m) =>
+      zlen keep = nrows t /\ m = keep_mask_to_id_map keep /\ WF d t' /\
+      abs t' = map (remap_row d m) (filter_mask keep (abs t)) /\
+      kept_refs_ok d (nrows t) m keep (abs t)
+  | (t', _) => t' = t
+  end.
+Proof. exact py_keep_rows_spec. Qed.
+
+Theorem c13_py_keep_rows_wrong_length : forall d t keep,
+  zlen keep <> nrows t -> py_keep_rows d t keep = (t, Err PY_VALUE_ERROR).
+Proof. exact py_keep_rows_wrong_length. Qed.
+
+Theorem c13_py_keep_rows_dangling : forall d t keep,
+  WF d t -> zlen keep = nrows t ->
+  ~ kept_refs_ok d (nrows t) (keep_mask_to_id_map keep) keep (abs t) ->
+  exists c, py_keep_rows d t keep = (t, Err c).
+Proof. exact py_keep_rows_dangling. Qed.
+
+Theorem c13_py_truncate_spec : forall d t n,
+  WF d t ->
+  (0 <= n <= nrows t ->
+     exists t', py_truncate t n = (t', Ok tt) /\ WF d t' /\ abs t' = firstn (Z.to_nat n) (abs t)) /\
+  (n < 0 \/ nrows t < n -> py_truncate t n = (t, Err PY_VALUE_ERROR)).
+Proof. exact py_truncate_spec. Qed.
+
 (* bridge to C02: the arrays Python sees have the shape C02/Spec.v's WF assumes *)
 Theorem c13_asdict_has_C02_shape : forall d t,
   WF d t ->
